@@ -148,7 +148,14 @@ func (fr *frame) staticCall(x *ssa.Call, fn *ssa.Function, args []Value, binding
 	if h, ok := extIntrinsics[key]; ok {
 		return h(fr, x, args, st, pos)
 	}
-	if ct := c.e.Contracts.ByKey[key]; ct != nil {
+	ct, recvNowPtr := c.e.ContractFor(fn)
+	if ct != nil && recvNowPtr {
+		if ptr, ok := args[0].(*Term); ok {
+			pt := fn.Params[0].Type().Underlying().(*types.Pointer).Elem()
+			args = append([]Value{c.loadStruct(st, c.structInfoOf(pt), ptr)}, args[1:]...)
+		}
+	}
+	if ct != nil {
 		switch ct.Kind {
 		case "spec":
 			return c.callSpec(ct, fn, args, st, pos)
@@ -274,6 +281,12 @@ func (c *FnCtx) callSpec(ct *Contract, fn *ssa.Function, args []Value, st *State
 			if !ok {
 				c.unsupported("opaque spec function %s applied to static value at %s", ct.Key, pos)
 				return c.havocResults(st, fn.Signature.Results(), fn.Name())
+			}
+			// objects passed as `any` are identified by their reference
+			if pt := fn.Signature.Params().At(i).Type(); t.sort == SIf {
+				if it, ok := pt.Underlying().(*types.Interface); ok && it.NumMethods() == 0 {
+					t = f.IfVal(t)
+				}
 			}
 			// byte slices are passed by content
 			if t.sort == SSl {
@@ -430,11 +443,7 @@ func (c *FnCtx) byContract(ct *Contract, sig *types.Signature, args []Value, st 
 		if c.ghost > 0 {
 			preAll = f.And(preAll, cond)
 		} else {
-			n := len(c.obls)
 			c.oblige(st, "pre", cond, pos, fmt.Sprintf("precondition %d of %s: %s", k, short, rq.Text))
-			if len(c.obls) > n {
-				c.obls[len(c.obls)-1].Props = rq.Props
-			}
 		}
 	}
 	pre := st.clone()
